@@ -1,4 +1,5 @@
 import SafeNet.Proofs.Replication
+import SafeNet.Props.C11
 /-!
 # C09 — records replicate to in-range neighbours and replicas converge
 
@@ -110,6 +111,64 @@ theorem advertises_everything_sys (w : World) (s : Sys) (i : Nat) (x : Nat × Ms
       have htg : tg ≠ [] := by intro h0; rw [h0] at hp'; simp at hp'
       obtain ⟨hk, _, _, hc⟩ := advertises_everything w i (s.node i) nd' tg keys hr htg
       exact ⟨p, by rw [← hpe, hk], hc p hp'⟩
+
+/-! ## replication targets at the range boundary -/
+
+/-- **Who is a replication target.** With a responsible range `r` set, the candidates are exactly the known peers whose
+distance to the node is `≤ r` — the peer sitting exactly on the boundary included (the run loop sets the range to the
+distance of one of the node's own close peers) — provided at least `CLOSE_GROUP_SIZE` peers are within the range;
+otherwise, and when no range is set, the `CLOSE_GROUP_SIZE` closest. (Selection step = `SafeNet.Distance.replicateCandidates`,
+C11 `replicate_candidates_spec`, over the regenerated `get_peers_in_range` operator.) -/
+theorem replication_targets_spec (w : World) (i : Nat) (nd : NodeSt) :
+    candidates w i nd =
+      match nd.range with
+      | some r =>
+        if SafeNet.Gen.Distance.closeGroupSize ≤ ((w.rt i).filter (fun p => decide (w.pdist i p ≤ r))).length
+        then (w.rt i).filter (fun p => decide (w.pdist i p ≤ r))
+        else (w.rt i).take SafeNet.Gen.Distance.closeGroupSize
+      | none => (w.rt i).take SafeNet.Gen.Distance.closeGroupSize := by
+  unfold candidates
+  rw [SafeNet.Props.C11.replicate_candidates_spec]
+  cases nd.range with
+  | none => simp [List.map_take, Function.comp_def]
+  | some r =>
+    simp only [List.filter_map, Function.comp_def, List.length_map, ge_iff_le]
+    split
+    · simp [List.map_map, Function.comp_def]
+    · simp [List.map_take, Function.comp_def]
+
+/-- the peer on the boundary is a target: a known peer at distance `≤ r` (in particular `= r`) is a candidate whenever
+at least `CLOSE_GROUP_SIZE` known peers are within `r` -/
+theorem boundary_peer_is_target (w : World) (i : Nat) (nd : NodeSt) (r p : Nat) (hr : nd.range = some r)
+    (hp : p ∈ w.rt i) (hd : w.pdist i p ≤ r)
+    (hen : SafeNet.Gen.Distance.closeGroupSize ≤ ((w.rt i).filter (fun q => decide (w.pdist i q ≤ r))).length) :
+    p ∈ candidates w i nd := by
+  rw [replication_targets_spec, hr]
+  simp only [hen, if_true]
+  exact List.mem_filter.2 ⟨hp, by simpa using hd⟩
+
+/-- every candidate that was not served during the last `REPLICATION_TIMEOUT` receives the list (when anything is sent) -/
+theorem every_due_candidate_served (w : World) (i : Nat) (nd nd' : NodeSt) (tg : List Nat) (keys : List (Nat × Nat))
+    (h : interval w i nd = (nd', tg, keys)) (hsent : tg ≠ []) (p : Nat) (hp : p ∈ candidates w i nd)
+    (hdue : ∀ q ∈ nd.targets, q.1 = p → targetStillFresh (2 * q.2) (2 * nd.fetcher.now + 1) = false) :
+    p ∈ tg := by
+  unfold interval at h
+  split at h
+  · simp at h; exact absurd h.2.1 hsent
+  · simp only at h
+    split at h
+    · simp at h; exact absurd h.2.1 hsent
+    · split at h
+      · simp at h; exact absurd h.2.1 hsent
+      · simp only [Prod.mk.injEq] at h
+        rw [← h.2.1]
+        refine List.mem_filter.2 ⟨hp, ?_⟩
+        simp only [Bool.not_eq_true', List.any_eq_false, beq_iff_eq]
+        intro q hq hqe
+        simp only [freshTargets, List.mem_filter] at hq
+        have := hdue q hq.1 hqe
+        rw [this] at hq
+        exact absurd hq.2 (by simp)
 
 /-! ## (1) immutable data replicates -/
 
@@ -715,5 +774,8 @@ example :
 #print axioms SafeNet.Props.C09.mutable_converge_partial_reg
 #print axioms SafeNet.Props.C09.step_allHeard
 #print axioms SafeNet.Props.C09.only_close_holders_heard_always
+#print axioms SafeNet.Props.C09.replication_targets_spec
+#print axioms SafeNet.Props.C09.boundary_peer_is_target
+#print axioms SafeNet.Props.C09.every_due_candidate_served
 
 end SafeNet.Props.C09
